@@ -25,8 +25,7 @@ e = 2.718281828459045
 intp = int64
 int_ = int64
 double = float64
-int32 = int64
-float32 = float64
+from ._core import float32, float16, int32
 unicode_ = None
 del unicode_
 bool = bool_     # numpy 2 exports np.bool
